@@ -5,7 +5,7 @@ from vector_common import *
 
 
 def run(chk, tier, seed):
-    vector_pipeline(chk, tier, seed, owned={"result", "state", "crash", "timeout"}, flagsets=[""], modes=["plain"])
+    vector_pipeline(chk, tier, seed, owned={"result", "state"}, flagsets=[""], modes=["plain"])
     chk.cov["exhaustive"] = not chk.infra
     chk.cov["rule"] = ("every transition of the Vector.tla model (all operations x every index in [-n-2,n+2] x values, "
                        "for each policy/initial capacity) replayed on the real qvector for several element sizes and "
